@@ -222,6 +222,36 @@ def gen_plan(seed: int, cls: str) -> dict:
                              'opts': gen_json_opts(ro) if fmt == 'json' else {k: v for (k, v) in gen_yaml_opts(ro).items() if k != 'default_style'},
                              'pathkind': ro.choice(PATHKINDS), 'passty': True, 'append': False},
                             {'op': 'read', 'src': sink, 'via': 'func', 'pathkind': ro.choice(PATHKINDS)}]
+    # scenario: an instance of a base class is written before the first instance of one of its subclasses (which adds
+    # fields / changes formats): anything the write route remembers per class must not be inherited through the MRO
+    rh = st.rng('hierarchy')
+    pairs = [(n, sp['base'][1]) for (n, sp) in sorted(world.class_specs.items())
+             if sp.get('base') and sp['base'][0] == 'cls' and not sp.get('tv') and not world.class_specs[sp['base'][1]].get('tv')]
+    if pairs and rh.random() < 0.7:
+        sub_, base_ = rh.choice(pairs)
+        chain = []
+        for cname in (base_, sub_):
+            ast = ['cls', cname]
+            custom = None
+            if _cls_uses_opaque(ast, world):
+                custom = rh.choice([['one', 'opaque'], ['seq', 'defer_ni', 'opaque'], ['map', 'Opaque']])
+            try:
+                data = tg.sample_value(ast, world, rh, valid_p=1.0, alphabet=knobs['alphabet'])
+            except HarnessError:
+                chain = None
+                break
+            values.append({'t': ast, 'data': tg.enc(data), 'custom': custom})
+            fmt = rh.choice(knobs['fmts'])
+            sink = rh.choice(sinks)
+            chain.append({'op': 'write', 'sink': sink, 'val': len(values) - 1, 'fmt': fmt,
+                          'via': 'string' if sink == 'str0' else rh.choice(['func', 'method', 'method']),
+                          'opts': gen_json_opts(rh) if fmt == 'json' else gen_yaml_opts(rh), 'pathkind': rh.choice(PATHKINDS),
+                          'passty': rh.random() < 0.7, 'append': False})
+            if sink != 'str0':
+                chain.append({'op': 'read', 'src': sink, 'via': rh.choice(['func', 'method']), 'pathkind': rh.choice(PATHKINDS)})
+        if chain:
+            pos = 0 if rh.random() < 0.6 else rh.randrange(len(ops) + 1)
+            ops[pos:pos] = chain
     # scenario: a path is written, read, re-written with a *different value whose serialisation has the same length*
     # (all within the same clock second, as fast as the process runs) and read again: a reader that remembers what a
     # path held, validated by size and a coarse timestamp, returns the old value
